@@ -216,4 +216,22 @@ StepShape ==
         \/ IsSubseqByRemovingOne(out[n], out'[n])
         \/ out'[n] = <<>>
         \/ \E p \in Nodes : out'[n] = DropPeer(out[n], p)]_vars
+
+\* ---- link to the integer abstraction spec/apalache/AdjCount.tla (unbounded proof with Apalache) ----
+\* co[u][v][e] / ci[v][u][e] of AdjCount are these counts; every step of this list model is a step
+\* (Connect / Disconnect / Isolate / stutter) of the count model
+AbsO(o) == [u \in Nodes |-> [v \in Nodes |-> [e \in Vals |-> CountOf(o[u], v, e)]]]
+AbsI(i) == [v \in Nodes |-> [u \in Nodes |-> [e \in Vals |-> CountOf(i[v], u, e)]]]
+RefinesAdjCount ==
+  [][LET co == AbsO(out) ci == AbsI(inn) co2 == AbsO(out') ci2 == AbsI(inn') IN
+     \/ co2 = co /\ ci2 = ci
+     \/ \E u \in Nodes, v \in Nodes, e \in Vals :
+           co2 = [co EXCEPT ![u][v][e] = @ + 1] /\ ci2 = [ci EXCEPT ![v][u][e] = @ + 1]
+     \/ \E u \in Nodes, k \in Nodes, e \in Vals :
+           /\ co[u][k][e] > 0 /\ ci[k][u][e] > 0
+           /\ co2 = [co EXCEPT ![u][k][e] = @ - 1] /\ ci2 = [ci EXCEPT ![k][u][e] = @ - 1]
+     \/ \E u \in Nodes :
+           /\ co2 = [a \in Nodes |-> [b \in Nodes |-> [e \in Vals |-> IF a = u \/ b = u THEN 0 ELSE co[a][b][e]]]]
+           /\ ci2 = [a \in Nodes |-> [b \in Nodes |-> [e \in Vals |-> IF a = u \/ b = u THEN 0 ELSE ci[a][b][e]]]]
+    ]_vars
 =============================================================================
